@@ -10,6 +10,7 @@ from llparse import *
 from solver import SolverLayer, Inconclusive
 
 sys.setrecursionlimit(20000)
+TRACE = int(os.environ.get("LLSYM_TRACE", "0") or 0)     # development aid: keep the last N executed instructions
 
 
 class Undef:
@@ -20,6 +21,31 @@ class Undef:
 
 
 UNDEF = Undef()
+
+
+class PU:
+    """integer that is undefined in some bits (mask m, concrete) and has value v (int or z3 term, undefined bits
+    zeroed) elsewhere: what a load from partly initialised memory yields.  trunc / zext / and / or / xor / constant
+    shifts propagate the mask; when it becomes empty the value is ordinary again; any other use is a use of
+    uninitialised data."""
+    __slots__ = ("v", "m", "w")
+
+    def __init__(self, v, m, w):
+        self.v = v
+        self.m = m
+        self.w = w
+
+    def __repr__(self):
+        return "PU(%s,undef=%x,w=%d)" % (self.v, self.m, self.w)
+
+
+def mkpu(v, m, w):
+    m &= (1 << w) - 1
+    if m == 0:
+        return v
+    if m == (1 << w) - 1:
+        return UNDEF
+    return PU(v, m, w)
 
 
 class Ptr:
@@ -53,9 +79,10 @@ I1 = IntTy(1)
 
 
 class Obj:
-    __slots__ = ("id", "size", "data", "const", "alive", "name", "owner", "base", "kind")
+    __slots__ = ("id", "size", "data", "const", "alive", "name", "owner", "base", "kind", "sym")
 
     def __init__(self, id, size, data, const, name, owner, base, kind):
+        self.sym = False
         self.id = id
         self.size = size
         self.data = data
@@ -142,7 +169,7 @@ def simp(e):
 
 class State:
     __slots__ = ("frames", "mem", "pc", "pc_ids", "lpc", "lpc_ids", "grp", "model", "token", "nsym", "syms",
-                 "steps", "outs", "draws", "expect_panic", "reached", "depth")
+                 "steps", "outs", "draws", "expect_panic", "reached", "depth", "bounds")
 
     def __init__(self):
         self.frames = []
@@ -162,6 +189,7 @@ class State:
         self.expect_panic = 0
         self.reached = set()
         self.depth = 0
+        self.bounds = {}       # bare symbol name -> (lo, hi): unsigned interval implied by the path condition
 
     def fork(self):
         s = State()
@@ -193,6 +221,7 @@ class State:
         s.expect_panic = self.expect_panic
         s.reached = set(self.reached)
         s.depth = self.depth + 1
+        s.bounds = dict(self.bounds)
         self.token = object()
         s.token = object()
         return s
@@ -203,6 +232,7 @@ class State:
             d = o.data
             n = Obj(o.id, o.size, list(d) if d is not None else None, o.const, o.name, self.token, o.base, o.kind)
             n.alive = o.alive
+            n.sym = o.sym
             self.mem[oid] = n
             return n
         return o
@@ -242,11 +272,13 @@ class Engine:
         self.max_steps = max_steps
         self.params = {}
         self.concrete_syms = None    # list of ints: run concretely (self-test / replay inside llsym)
+        self.small_index_fork = 0    # see load_symoff
         self.init_globals()
         self.reset_stats()
         self.panic_names = {}
         self.fn_addrs = {}
         self.fn_by_addr = {}
+        self.trace = []
 
     def reset_stats(self):
         self.stats = dict(paths=0, steps=0, forks=0, ok=0, infeasible=0, asserts_checked=0, asserts_sym=0,
@@ -341,6 +373,13 @@ class Engine:
             n = self.mod.store_size(ty)
             for i in range(n):
                 buf[off + i] = None
+            return
+        if isinstance(v, PU):
+            n = self.mod.store_size(ty)
+            tmp = [0] * n
+            self.put_value(tmp, 0, ty, v.v)
+            for i in range(n):
+                buf[off + i] = None if (v.m >> (8 * i)) & 0xFF else tmp[i]
             return
         if isinstance(v, (Ptr, FnPtr)):
             for i in range(8):
@@ -452,7 +491,7 @@ class Engine:
             if iv >> 63:
                 iv -= 1 << 64
             return off + iv * sz
-        if iv is UNDEF or off is UNDEF:
+        if iv is UNDEF or off is UNDEF or isinstance(iv, PU) or isinstance(off, PU):
             raise PathEnd("error", "pointer arithmetic on undef")
         a = bv(off & mask(64) if isinstance(off, int) else off, 64)
         b = bv(iv, 64)
@@ -574,6 +613,19 @@ class Engine:
                             return simp(r == bvv(1, 1))
                         return r
                     return e
+        if ty.k == "int" and ty.n > 1 and any(c is None for c in cells) and not all(c is None for c in cells):
+            m = 0
+            defined = []
+            for i, c in enumerate(cells):
+                if c is None:
+                    m |= 0xFF << (8 * i)
+                    defined.append(0)
+                else:
+                    defined.append(c)
+            v = self.assemble(st, IntTy(8 * n), n, defined)
+            if ty.n < 8 * n:
+                v = self.cast(st, "trunc", IntTy(8 * n), v, ty)
+            return mkpu(v, m, ty.n)
         parts = []
         for c in cells:
             if c is None:
@@ -646,6 +698,13 @@ class Engine:
                     raise PathEnd("unsupported", "unaligned symbolic-index read of constant table %s" % o.name)
             # check_access has shown  off <= size - n  on this path, so the entry number fits kbits bits
             idx = z3.simplify(z3.Extract(sh + kbits - 1, sh, off))
+            if self.small_index_fork:
+                # option (encoder checks): a read that can only reach a handful of entries is cheaper as a fork on
+                # the index than as an uninterpreted-function term that every later scan has to reason about
+                lo, hi = self.index_bounds(st, idx, nent, small_ok=True)
+                if hi - lo + 1 <= self.small_index_fork and not self.sl.info(idx)[1]:
+                    k = self.concretize(st, work, idx, "small table index")
+                    return self.load(st, ty, Ptr(o.id, k * n), work)
             lo, hi = self.index_bounds(st, idx, nent)
             self.sl.ensure_table_range(f.name(), lo, hi)
             x = f(idx)
@@ -660,12 +719,12 @@ class Engine:
         k = self.concretize(st, work, off)
         return self.load(st, ty, Ptr(o.id, k), work)
 
-    def index_bounds(self, st, idx, nent):
+    def index_bounds(self, st, idx, nent, small_ok=False):
         """[min, max] of the bit-vector term idx over the current path condition, decided by the solver
         (binary search; the queries are cached across sibling paths).  Falls back to the whole table when the
         index itself depends on a table."""
         sl = self.sl
-        if nent <= 512:
+        if nent <= 512 and not small_ok:
             return 0, nent - 1
         # an index that is itself computed from a table value cannot be bounded without table reasoning:
         # assert the whole table.  (If only its slice involves tables the bounds queries are heavy, but they run
@@ -721,6 +780,8 @@ class Engine:
         o = st.wobj(p.obj)
         if isinstance(o.data, bytes):
             o.data = list(o.data)
+        if not isinstance(v, int):
+            o.sym = True
         self.put_value(o.data, off, ty, v)
 
     # ------------------------------------------------------------ solver interface
@@ -735,6 +796,123 @@ class Engine:
             self.sl.stats["model_hits"] += 1
             return st.model
         return self.sl.check(st, cond)
+
+    def constrain(self, st, c):
+        """add constraint c to the path condition of st; if it pins a bare input symbol to a constant, substitute
+        that constant throughout the state so that the rest of the path runs concretely"""
+        self.sl.add_constraint(st, c)
+        if z3.is_eq(c):
+            a, b = c.arg(0), c.arg(1)
+            if z3.is_bv_value(a):
+                a, b = b, a
+            if z3.is_bv_value(b) and z3.is_const(a) and a.decl().kind() == z3.Z3_OP_UNINTERPRETED:
+                self.propagate(st, a, b)
+
+    @staticmethod
+    def _bare(x):
+        return z3.is_const(x) and x.decl().kind() == z3.Z3_OP_UNINTERPRETED and z3.is_bv(x)
+
+    @staticmethod
+    def _bare(x):
+        return z3.is_const(x) and x.decl().kind() == z3.Z3_OP_UNINTERPRETED and z3.is_bv(x)
+
+    def refuted_by_bounds(self, st, c):
+        """True if c is  s == K  for a bare input symbol s and K lies outside [min s, max s] under the path
+        condition.  The interval is computed by the solver (binary search, as for table indexes) the first time it
+        is needed on a path and cached in the state: the path condition only grows, so a cached interval stays a
+        sound over-approximation.  This turns the thousands of  needle == entry  questions of a table scan into
+        two dozen solver queries."""
+        if not z3.is_eq(c):
+            return False
+        a, b = c.arg(0), c.arg(1)
+        if z3.is_bv_value(a):
+            a, b = b, a
+        if not (z3.is_bv_value(b) and self._bare(a)):
+            return False
+        name = str(a)
+        iv = st.bounds.get(name)
+        if iv is None:
+            if self.sl.slice_key(st, c)[1]:
+                return False            # the symbol is tied to table constraints: leave it to the heavy solver
+            iv = self.index_bounds(st, a, 1 << a.size(), small_ok=True)
+            st.bounds[name] = iv
+        K = b.as_long()
+        if K < iv[0] or K > iv[1]:
+            self.stats["refuted_by_bounds"] = self.stats.get("refuted_by_bounds", 0) + 1
+            return True
+        return False
+
+    def propagate(self, st, sym, val):
+        self.stats["propagated"] = self.stats.get("propagated", 0) + 1
+        pair = (sym, val)
+
+        def sub(v):
+            if isinstance(v, z3.ExprRef):
+                return simp(z3.substitute(v, pair))
+            if isinstance(v, list):
+                return [sub(x) for x in v]
+            if isinstance(v, Ptr):
+                if isinstance(v.off, z3.ExprRef):
+                    o = simp(z3.substitute(v.off, pair))
+                    if isinstance(o, int) and o >> 63:
+                        o -= 1 << 64
+                    return Ptr(v.obj, o)
+                return v
+            if isinstance(v, IntPtr):
+                x = sub(v.v)
+                return self.int_to_ptr(st, x) if isinstance(x, int) else IntPtr(x)
+            if isinstance(v, PU):
+                return PU(sub(v.v), v.m, v.w)
+            return v
+        for fr in st.frames:
+            regs = fr.regs
+            for k, v in regs.items():
+                if not isinstance(v, (int, Undef)) and v is not None:
+                    regs[k] = sub(v)
+        for oid, o in list(st.mem.items()):
+            if not o.sym or o.data is None or not o.alive:
+                continue
+            o = st.wobj(oid)
+            d = o.data
+            still = False
+            i = 0
+            n = len(d)
+            while i < n:
+                c = d[i]
+                if isinstance(c, z3.ExprRef):
+                    r = simp(z3.substitute(c, pair))
+                    d[i] = r
+                    if not isinstance(r, int):
+                        still = True
+                elif isinstance(c, tuple):
+                    if c[0] == "x":
+                        r = simp(z3.substitute(c[1], pair))
+                        if isinstance(r, int):
+                            # all fragments of this value are consecutive cells
+                            nb = c[1].size() // 8
+                            j = i - c[2]
+                            for t in range(nb):
+                                if 0 <= j + t < n:
+                                    ct = d[j + t]
+                                    if isinstance(ct, tuple) and ct[0] == "x" and ct[1] is c[1] and ct[2] == t:
+                                        d[j + t] = (r >> (8 * t)) & 255
+                        elif r is not c[1]:
+                            nb = c[1].size() // 8
+                            j = i - c[2]
+                            old = c[1]
+                            for t in range(nb):
+                                if 0 <= j + t < n:
+                                    ct = d[j + t]
+                                    if isinstance(ct, tuple) and ct[0] == "x" and ct[1] is old and ct[2] == t:
+                                        d[j + t] = ("x", r, t)
+                            still = True
+                        else:
+                            still = True
+                    else:
+                        still = True     # pointer bytes
+                i += 1
+            o.sym = still
+        st.outs = [sub(x) for x in st.outs]
 
     def concretize(self, st, work, x, what="value"):
         """fork over the feasible values of term x; the current state continues with one of them; the
@@ -758,7 +936,7 @@ class Engine:
             other.model = mo
             self.sl.add_constraint(other, ne)
             work.append(other)
-        self.sl.add_constraint(st, eq)
+        self.constrain(st, z3.simplify(eq))
         return v
 
     # ------------------------------------------------------------ values
@@ -775,6 +953,19 @@ class Engine:
         ft = m.resolve(ft)
         tt = m.resolve(tt)
         if v is UNDEF:
+            if op == "zext" and ft.k == "int" and tt.k == "int":
+                return PU(0, mask(ft.n), tt.n)      # the extension bits are defined zeros
+            return UNDEF
+        if isinstance(v, PU):
+            if op == "trunc" and tt.k == "int":
+                return mkpu(self.cast(st, op, ft, v.v, tt), v.m, tt.n)
+            if op == "zext" and tt.k == "int":
+                return mkpu(self.cast(st, op, ft, v.v, tt), v.m, tt.n)
+            if op == "sext" and tt.k == "int":
+                m = v.m | ((mask(tt.n) ^ mask(ft.n)) if (v.m >> (ft.n - 1)) & 1 else 0)
+                return mkpu(self.cast(st, op, ft, v.v, tt), m, tt.n)
+            if op == "bitcast":
+                return v
             return UNDEF
         if op == "bitcast" or op == "addrspacecast":
             if ft.k == "vec" or tt.k == "vec":
@@ -817,6 +1008,12 @@ class Engine:
         raise PathEnd("unsupported", "cast " + op)
 
     def binop(self, op, w, a, b, flags=()):
+        if isinstance(a, PU) or isinstance(b, PU):
+            return self.pu_binop(op, w, a, b)
+        if (a is UNDEF or b is UNDEF) and w > 1 and op in ("shl", "lshr", "and", "or") and not (a is UNDEF and b is UNDEF):
+            # a fully undefined integer still yields defined bits under a constant shift or against a constant mask
+            if isinstance(a, (int, Undef)) and isinstance(b, (int, Undef)):
+                return self.pu_binop(op, w, a, b)
         if isinstance(a, int) and isinstance(b, int):
             M = (1 << w) - 1
             if op == "add":
@@ -900,8 +1097,53 @@ class Engine:
             raise PathEnd("unsupported", op)
         return simp(r)
 
+    def pu_binop(self, op, w, a, b):
+        """bitwise operations on partly undefined integers"""
+        M = mask(w)
+        if a is UNDEF:
+            a = PU(0, M, w)
+        if b is UNDEF:
+            if op in ("shl", "lshr"):
+                return UNDEF
+            b = PU(0, M, w)
+        av, am = (a.v, a.m) if isinstance(a, PU) else (a, 0)
+        bv_, bm = (b.v, b.m) if isinstance(b, PU) else (b, 0)
+        if op in ("shl", "lshr") and bm == 0 and isinstance(bv_, int) and bv_ < w:
+            if op == "shl":
+                return mkpu(self.binop(op, w, av, bv_), (am << bv_) & M, w)
+            return mkpu(self.binop(op, w, av, bv_), am >> bv_, w)
+        if op == "and":
+            # a bit is defined (0) where either operand is a defined 0
+            z_a = (~av & ~am & M) if isinstance(av, int) else 0
+            z_b = (~bv_ & ~bm & M) if isinstance(bv_, int) else 0
+            m = (am | bm) & ~z_a & ~z_b
+            return mkpu(self.binop(op, w, av, bv_), m, w)
+        if op == "or":
+            o_a = (av & ~am & M) if isinstance(av, int) else 0
+            o_b = (bv_ & ~bm & M) if isinstance(bv_, int) else 0
+            m = (am | bm) & ~o_a & ~o_b
+            r = self.binop(op, w, av, bv_)
+            # undefined bits are kept zero in the value part
+            r = self.binop("and", w, r, M & ~m)
+            return mkpu(r, m, w)
+        if op == "xor":
+            m = am | bm
+            r = self.binop("and", w, self.binop(op, w, av, bv_), M & ~m)
+            return mkpu(r, m, w)
+        if op in ("add", "sub", "mul"):
+            # the low k bits of a sum / difference / product depend only on the low k bits of the operands: every bit
+            # below the lowest undefined operand bit is defined, everything from there up may be reached by a carry
+            u = am | bm
+            k = (u & -u).bit_length() - 1
+            m = M & ~((1 << k) - 1)
+            r = self.binop("and", w, self.binop(op, w, av, bv_), M & ~m)
+            return mkpu(r, m, w)
+        return UNDEF
+
     def icmp(self, st, pred, ty, a, b):
         ty = self.mod.resolve(ty)
+        if isinstance(a, PU) or isinstance(b, PU):
+            return UNDEF
         if a is UNDEF or b is UNDEF:
             return UNDEF
         if ty.k == "ptr":
@@ -1010,6 +1252,10 @@ class Engine:
                 if kind == "panic" and st.expect_panic:
                     kind = "ok"
                     st.reached.add(("expected_panic", st.expect_panic))
+                if TRACE and kind in ("error", "unsupported"):
+                    for t in self.trace[-TRACE:]:
+                        sys.stderr.write("   %s | %s | %s\n" % t)
+                    self.trace = []
                 if kind in ("error", "unsupported", "panic") and st.frames:
                     fr = st.frames[-1]
                     where = " <- ".join(self.short(f.fn.name) for f in reversed(st.frames[-4:]))
@@ -1071,7 +1317,7 @@ class Engine:
         """decide a two-way branch; returns (taken, other_state_or_None)"""
         if isinstance(cond, int):
             return bool(cond & 1), None
-        if cond is UNDEF:
+        if cond is UNDEF or isinstance(cond, PU):
             raise PathEnd("error", "branch on undef/uninitialised value")
         c = cond if z3.is_bool(cond) else (cond == bvv(1, 1))
         c = z3.simplify(c)
@@ -1089,7 +1335,7 @@ class Engine:
         elif r is False:
             mf = st.model
             sl.stats["model_hits"] += 1
-        if mt is None:
+        if mt is None and not self.refuted_by_bounds(st, c):
             mt = sl.check(st, c)
         if mf is None:
             mf = sl.check(st, nc)
@@ -1097,9 +1343,9 @@ class Engine:
             other = st.fork()
             self.stats["forks"] += 1
             other.model = mf
-            sl.add_constraint(other, nc)
+            self.constrain(other, nc)
             st.model = mt
-            sl.add_constraint(st, c)
+            self.constrain(st, c)
             work.append(other)
             return True, other
         if mt is not None:
@@ -1121,6 +1367,10 @@ class Engine:
             st.steps += 1
             if st.steps > max_steps:
                 raise PathEnd("bound", "step budget exceeded")
+            if TRACE:
+                self.trace.append((self.short(fr.fn.name)[-40:], fr.block, fr.fn.blocks[fr.block][fr.idx].strip()[:170]))
+                if len(self.trace) > 4 * TRACE:
+                    del self.trace[:-TRACE]
             k = ins[0]
             if k == "bin":
                 _, dst, op, ty, a, b, flags = ins
@@ -1169,7 +1419,7 @@ class Engine:
                 bvv_ = val(st, fr, ty, b)
                 if isinstance(cv, int):
                     fr.regs[dst] = av if cv & 1 else bvv_
-                elif cv is UNDEF:
+                elif cv is UNDEF or isinstance(cv, PU):
                     fr.regs[dst] = UNDEF
                 else:
                     t = mod.resolve(ty)
@@ -1218,7 +1468,7 @@ class Engine:
                     fr.block = tgt
                     fr.idx = 0
                     continue
-                if x is UNDEF:
+                if x is UNDEF or isinstance(x, PU):
                     raise PathEnd("error", "switch on undef")
                 tgt = None
                 for cv, lab in cases:
@@ -1311,7 +1561,7 @@ class Engine:
             elif k == "freeze":
                 _, dst, ty, v = ins
                 x = val(st, fr, ty, v)
-                fr.regs[dst] = 0 if x is UNDEF else x
+                fr.regs[dst] = 0 if x is UNDEF else (x.v if isinstance(x, PU) else x)
             elif k == "unreachable":
                 raise PathEnd("error", "reached 'unreachable' (undefined behaviour)")
             elif k == "nop":
@@ -1522,6 +1772,8 @@ class Engine:
             if isinstance(do.data, bytes):
                 do.data = list(do.data)
             do.data[doff:doff + n] = cells
+            if so.sym:
+                do.sym = True
             return None
         if name.startswith("llvm.memset"):
             d, v, n = A(0), A(1), A(2)
@@ -1535,6 +1787,8 @@ class Engine:
                 do.data = list(do.data)
             if v is UNDEF:
                 v = None
+            elif not isinstance(v, int):
+                do.sym = True
             do.data[doff:doff + n] = [v] * n
             return None
         base = name.split(".")
@@ -1728,13 +1982,13 @@ class Engine:
             if m is None:
                 raise PathEnd("infeasible")
             st.model = m
-            sl.add_constraint(st, c)
+            self.constrain(st, c)
             return None
         if name == "se_assert":
             c = A(0)
             aid = self.concretize(st, work, A(1), "se_assert id")
             self.stats["asserts_checked"] += 1
-            if c is UNDEF:
+            if c is UNDEF or isinstance(c, PU):
                 raise PathEnd("error", "assertion %d on undef/uninitialised value" % aid, aid)
             if isinstance(c, int):
                 if not c & 1:
